@@ -278,7 +278,11 @@ func (p *parser) readType() (t Type, err error) {
 			var token string
 			token, err = p.readToken()
 			if err == nil && 0 < len(token) {
-				if t = p.root.GetType(token); t == nil {
+				// GetType() also finds directives, a directive is not a
+				// type. The name is that of a type defined later or of
+				// the directive of a directive use.
+				t = p.root.GetType(token)
+				if _, ok := t.(*Directive); ok || t == nil {
 					t = &Ref{Base: Base{N: token}}
 				}
 			}
@@ -604,6 +608,11 @@ func (p *parser) readDirUse() (du *DirectiveUse, err error) {
 	}
 	if du.Directive == nil {
 		return nil, parseError(p.line, p.col, "directive missing")
+	}
+	// A directive use names a directive, also when there is a type with the
+	// same name. It stays a reference when the directive is defined later.
+	if dir := p.root.dirs.get(du.Directive.Name()); dir != nil {
+		du.Directive = dir
 	}
 	if p.onDeck == '(' {
 		_, _ = p.readByte() // re-read opening (
